@@ -395,3 +395,121 @@ func installedNoPanic(c *Ctx, r *Report, rule string) {
 		}
 	}
 }
+
+// assertInvariant: "bool field b of struct T is true only if the value in interface field t
+// has a dynamic type implementing A". Established when every function that stores to b or t
+// does so on a struct it allocated itself (a constructor), stores into b the comma-ok result of
+// v.(A) and into t that same v.
+type assertInvariant struct {
+	tn       *types.Named
+	boolFld  int
+	ifaceFld int
+	asserted types.Type
+}
+
+// fieldAssertInvariants scans the module for such pairs.
+func fieldAssertInvariants(c *Ctx) []assertInvariant {
+	if c.assertInv != nil {
+		return *c.assertInv
+	}
+	var out []assertInvariant
+	type key struct {
+		tn *types.Named
+		f  int
+	}
+	type storeSite struct {
+		fn   *ssa.Function
+		base ssa.Value
+		val  ssa.Value
+	}
+	stores := map[key][]storeSite{}
+	for _, fn := range c.allFuncs("") {
+		for _, b := range fn.Blocks {
+			for _, in := range b.Instrs {
+				st, ok := in.(*ssa.Store)
+				if !ok {
+					continue
+				}
+				fa, ok := st.Addr.(*ssa.FieldAddr)
+				if !ok {
+					continue
+				}
+				tn, ok := deref(fa.X.Type()).(*types.Named)
+				if !ok {
+					continue
+				}
+				stores[key{tn, fa.Field}] = append(stores[key{tn, fa.Field}], storeSite{fn, fa.X, st.Val})
+			}
+		}
+	}
+	for k, ss := range stores {
+		stt, ok := k.tn.Underlying().(*types.Struct)
+		if !ok {
+			continue
+		}
+		if b, isB := stt.Field(k.f).Type().Underlying().(*types.Basic); !isB || b.Kind() != types.Bool {
+			continue
+		}
+		// every store to the bool field: comma-ok of an assertion, on a fresh struct
+		var inv *assertInvariant
+		okAll := true
+		for _, s := range ss {
+			if _, fresh := s.base.(*ssa.Alloc); !fresh {
+				okAll = false
+				break
+			}
+			ex, isEx := s.val.(*ssa.Extract)
+			if !isEx || ex.Index != 1 {
+				okAll = false
+				break
+			}
+			ta, isTA := ex.Tuple.(*ssa.TypeAssert)
+			if !isTA || !ta.CommaOk {
+				okAll = false
+				break
+			}
+			// the asserted value is stored into an interface field of the same struct
+			ifld := -1
+			for k2, ss2 := range stores {
+				if k2.tn != k.tn {
+					continue
+				}
+				for _, s2 := range ss2 {
+					if s2.fn == s.fn && s2.base == s.base && s2.val == ta.X {
+						ifld = k2.f
+					}
+				}
+			}
+			if ifld < 0 {
+				okAll = false
+				break
+			}
+			cand := assertInvariant{k.tn, k.f, ifld, ta.AssertedType}
+			if inv != nil && (inv.ifaceFld != cand.ifaceFld || !types.Identical(inv.asserted, cand.asserted)) {
+				okAll = false
+				break
+			}
+			inv = &cand
+		}
+		if !okAll || inv == nil {
+			continue
+		}
+		// the interface field is stored nowhere else than next to such a bool store
+		for _, s2 := range stores[key{k.tn, inv.ifaceFld}] {
+			paired := false
+			for _, s := range ss {
+				if s.fn == s2.fn && s.base == s2.base {
+					paired = true
+				}
+			}
+			if !paired {
+				okAll = false
+			}
+		}
+		if okAll {
+			out = append(out, *inv)
+		}
+	}
+	c.assertInv = &out
+	return out
+}
